@@ -368,7 +368,10 @@ def lookup (t : Tables) (tbl : List String) (op : String) : Outcome :=
 
 def unhandled (t : Tables) : Outcome := if t.defaultIsNone then .fallback else .raises
 
-/-- `_ir_to_source` of one backend, as far as acceptance goes -/
+/-- `_ir_to_source` of one backend, as far as acceptance goes.  A kind's table is the union of
+    the literal dictionaries its branch tries in turn (`+ - *` as Python operators, then `% ^`
+    as calls of the verbs; `+ *` as ufunc.reduce, then `| &` guarded), as the translator reads
+    them; `missingIsNone` says every such chain ends in `return None`. -/
 def gen (t : Tables) : IR → Outcome
   | .literal => if "literal" ∈ t.kinds then .code else unhandled t
   | .var => if "var" ∈ t.kinds then .code else unhandled t
